@@ -53,7 +53,7 @@ impl Condvar {
         mutex.release_lock();
 
         // Disable the current thread
-        rt::park(location);
+        rt::block_until_unparked(location);
 
         // Acquire the lock again
         mutex.acquire_lock(location);
